@@ -349,3 +349,31 @@ _er.call_requires["Complement.__init__"] = [
     "len(children) == 1 and children[0] == caller_self.comb_class", "idx == 0",
     "not is_none(extra_parameters) and len(val(extra_parameters)) == 1"]
 _er.modifies = list(_er.modifies) + ["all:Obj('Complement')"]
+
+# ------------------------------------------------------------------ C07/C09: EquivalenceRule.__init__
+# child_idx is the position, among ALL children of the original rule, of its (first) non-empty child
+spec_fn("nonempty_children_of", lambda ex, st, r: Val(Seq(CombClass), z3.Function("nonempty_children_of", z3.IntSort(),
+                                                                                   z3.SeqSort(CombClass.sort()))(r.z)))
+REG.classes["AbstractRule"].fields.update({"_non_empty_children": Opt(Seq(CombClass))})
+contract(F, "Rule.non_empty_children", source="AbstractRule.non_empty_children", props=["C07", "C09"], verify=False,
+         trusted_reason="memoised filter of the children by (user) emptiness: deterministic (A2); every element is a child",
+         params={"self": Obj("Rule"), "is_empty": Opt(Fun("emptiness"))}, returns=Seq(CombClass),
+         ensures=["result == nonempty_children_of(self)",
+                  "forall(lambda i: implies(0 <= i and i < len(result), result[i] in children_of(self)))"],
+         modifies=["self._non_empty_children", "self._children"])
+contract(F, "Rule.__init__", source="AbstractRule.__init__", props=["C07", "C09"], verify=False,
+         trusted_reason="constructor summary: stores class, strategy and (optional) children, clears the caches",
+         params={"self": Obj("Rule"), "strategy": Strategy, "comb_class": CombClass, "children": Opt(Seq(CombClass))},
+         ensures=["self.comb_class == comb_class", "self._children == children"], modifies=["*self"], self_invariant=False)
+REG.classes["EquivalenceRule"].fields.update({"actual_children": Seq(CombClass)})
+contract(F, "EquivalenceRule.__init__", props=["C07", "C09"], lenient=True,
+         params={"self": Obj("EquivalenceRule"), "rule": Obj("Rule")},
+         requires=["len(nonempty_children_of(rule)) >= 1"],
+         may_raise=["AssertionError", "StrategyDoesNotApply"], asserts="raise",
+         ensures=["same(self.original_rule, rule)", "self.comb_class == rule.comb_class",
+                  "0 <= self.child_idx and self.child_idx < len(children_of(rule))",
+                  "children_of(rule)[self.child_idx] == nonempty_children_of(rule)[0]",
+                  "forall(lambda j: implies(0 <= j and j < self.child_idx, children_of(rule)[j] != nonempty_children_of(rule)[0]))",
+                  "self.actual_children == children_of(rule)", "is_none(self._constructor)"],
+         modifies=["*self", "rule._non_empty_children", "rule._children", "all:Obj('AbstractRule')"], self_invariant=False,
+         notes="the equivalence form remembers which child of the original rule it keeps")
